@@ -693,7 +693,8 @@ struct OpRec {
 
 enum Next {
     Done,
-    Boot(usize),
+    /// restart, continuing with this operation; length of the log at the power loss
+    Boot(usize, usize),
 }
 
 fn resumption_record(fab: u8, peer: u64) -> ResumableSession {
@@ -767,7 +768,7 @@ fn boot_and_snapshot(kv: &MemKv) -> (String, String) {
 
 /// Run ops[start..] on one device incarnation over `kv` (which keeps its log across incarnations).
 #[allow(clippy::too_many_arguments)]
-fn run_incarnation(base: &Base, cm: &mut Ctl, kv: &MemKv, ops: &[Op], start: usize, pase_at_boot: bool, boot_no: u64, recs: &mut Vec<OpRec>) -> Next {
+fn run_incarnation(base: &Base, cm: &mut Ctl, kv: &MemKv, ops: &[Op], start: usize, pase_at_boot: bool, boot_no: u64, crash_log_len: Option<usize>, recs: &mut Vec<OpRec>) -> Next {
     let det = e2e::dev_det(None, None);
     let dev = e2e::new_matter(det, false);
     let ctl = e2e::new_matter(det, false);
@@ -806,6 +807,29 @@ fn run_incarnation(base: &Base, cm: &mut Ctl, kv: &MemKv, ops: &[Op], start: usi
     e2e::block_on(dm.startup()).unwrap();
     if pase_at_boot {
         install(&dev, &ctl, Sess::P, cm.pase_gen);
+    }
+    if let Some(lb) = crash_log_len {
+        // the record of the power loss: what the start-up wrote, and the node it came up as
+        let full = kv.log();
+        let v: Vec<String> = full[lb..]
+            .iter()
+            .filter(|o| !foreign_key(op_key(o)))
+            .map(|o| match o {
+                KvOp::Store(k, _) => format!("s{}", k),
+                KvOp::Remove(k) => format!("r{}", k),
+                KvOp::StoreFailed(k) => format!("f{}", k),
+            })
+            .collect();
+        let end = scoped_len(&full);
+        cm.scoped_total = end;
+        recs.push(OpRec {
+            status: "ok".into(),
+            kv: if v.is_empty() { "-".to_string() } else { v.join(",") },
+            ack: "-".into(),
+            fs: fs_str(&dev),
+            cells: cells(&dev, &st, &labels, &binds),
+            end,
+        });
     }
     let net = Net::reliable();
     let (d_tx, d_rx) = net.attach(DEV);
@@ -1009,10 +1033,8 @@ fn run_incarnation(base: &Base, cm: &mut Ctl, kv: &MemKv, ops: &[Op], start: usi
                         if ok {
                             let rec = resumption_record(*f, *p);
                             dev.with_state(|state| state.resumption.insert_or_update(rec));
-                            "ok".to_string()
-                        } else {
-                            "nofabric".to_string()
                         }
+                        "ok".to_string()
                     }
                     Op::Flush => {
                         // body of Matter::run_persist_resumption after the debounce
@@ -1066,10 +1088,11 @@ fn run_incarnation(base: &Base, cm: &mut Ctl, kv: &MemKv, ops: &[Op], start: usi
                 };
                 let end = scoped_len(&full);
                 cm.borrow_mut().scoped_total = end;
-                recs.borrow_mut().push(OpRec { status, kv: kvs, ack, fs: fs_str(&dev), cells: cells(&dev, &st, &labels, &binds), end });
                 if matches!(op, Op::Crash) {
-                    return Next::Boot(i);
+                    // recorded by the next incarnation, once it is up
+                    return Next::Boot(i, full.len());
                 }
+                recs.borrow_mut().push(OpRec { status, kv: kvs, ack, fs: fs_str(&dev), cells: cells(&dev, &st, &labels, &binds), end });
             }
             Next::Done
         };
@@ -1114,16 +1137,15 @@ fn run_s(base: &Base, f: &[&str]) -> String {
     let mut recs: Vec<OpRec> = Vec::new();
     let mut start = 0usize;
     let mut boot_no = 0u64;
+    let mut crash: Option<usize> = None;
     loop {
-        let n = run_incarnation(base, &mut cm, &kv, &ops, start, pase && boot_no == 0, boot_no, &mut recs);
+        let n = run_incarnation(base, &mut cm, &kv, &ops, start, pase && boot_no == 0, boot_no, crash, &mut recs);
         boot_no += 1;
         match n {
             Next::Done => break,
-            Next::Boot(i) => {
+            Next::Boot(i, loglen) => {
                 start = i;
-                if start >= ops.len() {
-                    break;
-                }
+                crash = Some(loglen);
             }
         }
     }
